@@ -125,7 +125,7 @@ CHECKS = {
             "Header/URL/Host rules are decided for all scenarios in the bound and replayed one by one; for bodies every piece received by the backend or the client must be the next "
             "contiguous range of its own request's keyed byte stream, ends must come after the last byte with the announced method/target/headers/status/trailers, and every exchange "
             "must complete - under concurrent keep-alive and multiplexed traffic, both protocols, PreserveHost on and off.",
-            "Request trailers are logged only; Accept-Encoding: gzip added by Go's transport, header-name case, User-Agent defaulting, Cookie merging and re-framing are dont-care; D12 is reported as KNOWN-FINDING."),
+            "Request trailers are logged only; Accept-Encoding: gzip added by Go's transport, header-name case, User-Agent defaulting, Cookie merging and re-framing are dont-care; forward URLs with a path prefix and bodies on GET/DELETE/OPTIONS with and without declared length are part of the families; D12 and D17 are reported as KNOWN-FINDING."),
 }
 
 NOT_YET = {}
